@@ -392,7 +392,7 @@ func (c *Ctx) checkReloadCoverage() {
 		}
 		r.Func(fk(fn))
 		read := map[string]bool{}
-		core.AllInstrs(fn, func(in ssa.Instruction) {
+		c.withCallees(fn, 2, func(_ *ssa.Function, in ssa.Instruction, _ ssa.Instruction) {
 			if fa, ok := in.(*ssa.FieldAddr); ok {
 				if f, base := core.FieldOfAddr(fa); f != nil {
 					if pt, ok := base.Type().(*types.Pointer); ok && types.Identical(pt.Elem(), subT) {
@@ -446,12 +446,12 @@ func (c *Ctx) checkReloadCoverage() {
 				isGrpLoader = true
 			}
 		}
-		if !isGrpLoader || len(core.StoresToField(fn, c.E().topicField("lastID"))) == 0 {
+		if !isGrpLoader {
 			continue
 		}
 		r.Func(fk(fn))
 		read := map[string]bool{}
-		core.AllInstrs(fn, func(in ssa.Instruction) {
+		c.withCallees(fn, 2, func(_ *ssa.Function, in ssa.Instruction, _ ssa.Instruction) {
 			if fa, ok := in.(*ssa.FieldAddr); ok {
 				if f, base := core.FieldOfAddr(fa); f != nil {
 					if pt, ok := base.Type().(*types.Pointer); ok && types.Identical(pt.Elem(), topicT) {
